@@ -415,6 +415,20 @@ func (in *Interp) callFn(caller *Frame, fn *ssa.Function, args []Value, binds []
 			return in.zeroResults(fn.Signature)
 		}
 	}
+	// unconditional self-recursion with the caller's own arguments never terminates
+	if caller != nil && caller.fn == fn && g == caller.entryG && len(args) == len(fn.Params) {
+		same := true
+		for i, p := range fn.Params {
+			if !identical(caller.env[p], args[i]) {
+				same = false
+				break
+			}
+		}
+		if same && len(fn.Params) > 0 {
+			in.abort(g, "panic", in.site(site), "infinite recursion: "+fn.Name()+" calls itself with its own arguments (stack overflow)")
+			return in.zeroResults(fn.Signature)
+		}
+	}
 	fi := in.info(fn)
 	if fi.err != "" {
 		in.abort(g, "unsupported", in.site(site), fi.err+" in "+key)
